@@ -23,6 +23,18 @@ pub enum Ty {
     Union(Vec<Ty>),
 }
 
+/// the field list after writing `label: ty` into it (spread semantics: a label that exists is
+/// overridden in place, everything else is appended)
+pub fn set_or_append(acc: &mut Vec<(Option<String>, Ty)>, label: Option<String>, ty: Ty) {
+    if let Some(l) = &label {
+        if let Some(e) = acc.iter_mut().find(|e| e.0.as_ref() == Some(l)) {
+            e.1 = ty;
+            return;
+        }
+    }
+    acc.push((label, ty));
+}
+
 impl Ty {
     pub fn nil() -> Ty {
         Ty::Tup(None, vec![])
@@ -430,13 +442,19 @@ impl Term {
             Term::Lit(l) => l.src(),
             Term::Str(s) => format!("\"{s}\""),
             Term::Tuple(name, fs) => {
-                let prefix = match name {
+                let mut prefix = match name {
                     TupName::Anon => String::new(),
                     TupName::Named(n) => n.clone(),
                     TupName::Inherit => "~".into(),
                 };
                 if fs.is_empty() {
                     return if prefix.is_empty() { "[]".into() } else { prefix };
+                }
+                // `x[..., …]` : inherit the name of x; the leading spread is written `...`
+                let mut fs: Vec<Field> = fs.clone();
+                if let (TupName::Inherit, Some(Field::Spread(Some(x)))) = (name, fs.first()) {
+                    prefix = x.clone();
+                    fs[0] = Field::Spread(None);
                 }
                 let inner: Vec<String> = fs
                     .iter()
